@@ -2,6 +2,7 @@ package checks
 
 import (
 	"fmt"
+	"github.com/bitcoin-sv/block-headers-service/service"
 	"net"
 	"os"
 	"path/filepath"
@@ -76,12 +77,27 @@ func runC15Race(p *C15RacePlan) (*stats.Case, error) {
 		}
 		plan.Nodes = append(plan.Nodes, nd)
 	}
-	sc, err := buildScenario(plan, stack.Options{})
+	// notification delivery takes part in the scenario: the notifier channels as in main() and three webhooks with
+	// different authorisation settings (every stored header starts one delivery goroutine per channel)
+	whc := &scriptedClient{next: func() int { return 0 }}
+	var whErr error
+	sc, err := buildScenario(plan, stack.Options{WebhookClient: whc, WrapServices: func(sv *service.Services) {
+		// as in main(): channels and webhooks exist before the P2P engine starts
+		sv.Notifier.AddChannel(sv.Webhooks)
+		for i, w := range [][3]string{{"bearer", "", "tok-one"}, {"custom_header", "X-Api-Key", "key-two"}, {"", "", ""}} {
+			if _, err := sv.Webhooks.CreateWebhook(w[0], w[1], w[2], fmt.Sprintf("http://hook.invalid/race/%d", i)); err != nil {
+				whErr = err
+			}
+		}
+	}})
 	if sc != nil {
 		defer sc.close()
 	}
 	if err != nil {
 		return nil, err
+	}
+	if whErr != nil {
+		return nil, fmt.Errorf("infra: %w", whErr)
 	}
 	var stop atomic.Bool
 	var reads atomic.Int64
@@ -133,14 +149,23 @@ func runC15Race(p *C15RacePlan) (*stats.Case, error) {
 	}
 	if after := raceReportBytes(); after > before {
 		// the race detector reported something during this scenario: the driver classifies the report
+		// the detector may still be writing the report: read until the logs have not grown for 300 ms
+		for prev := -1; prev != raceReportBytes(); {
+			prev = raceReportBytes()
+			time.Sleep(300 * time.Millisecond)
+		}
 		rep := ""
 		for _, f := range raceLogs() {
 			if b, err := os.ReadFile(f); err == nil {
 				rep += string(b)
 			}
 		}
+		if u := firstUnknownRace(rep); !onlyKnownRaces(rep) && !strings.Contains(raceAppFrames(u), "block-headers-service/") {
+			// both accesses lie in the harness itself: a defect of the machinery, never a violation of the property
+			return nil, fmt.Errorf("infra: data race inside the harness: %s", raceSummary(u))
+		}
 		if !p.KnownPass || !onlyKnownRaces(rep) {
-			return nil, fmt.Errorf("DATA RACE reported by the race detector during the scenario:\n%s", trunc(firstUnknownRace(rep)))
+			return nil, fmt.Errorf("DATA RACE reported by the race detector during the scenario: %s", raceSummary(firstUnknownRace(rep)))
 		}
 		for _, b := range splitRaces(rep) {
 			if kf := openFinding(knownRaceID(b)); kf != nil {
@@ -164,6 +189,60 @@ func knownRaceID(block string) string {
 		return "C15-experimental-peer-disconnect-unsynchronised"
 	}
 	return ""
+}
+
+// raceAppFrames returns the frames of the two ACCESS stacks (not the goroutine creation stacks) that belong to the
+// service's own packages.
+func raceAppFrames(block string) string {
+	var out []string
+	access := false
+	for _, l := range strings.Split(block, "\n") {
+		t := strings.TrimSpace(l)
+		switch {
+		case strings.HasPrefix(t, "Read at") || strings.HasPrefix(t, "Write at") || strings.HasPrefix(t, "Previous read") || strings.HasPrefix(t, "Previous write"):
+			access = true
+		case strings.HasPrefix(t, "Goroutine "):
+			access = false
+		case access && strings.Contains(t, "bitcoin-sv/block-headers-service/") && !strings.Contains(t, "/verifharness/"):
+			out = append(out, t)
+		}
+	}
+	return strings.Join(out, "\n")
+}
+
+// raceSummary puts the two access stacks of a race report on one line (application frames only).
+func raceSummary(block string) string {
+	var parts []string
+	cur := ""
+	n := 0
+	for _, l := range strings.Split(block, "\n") {
+		t := strings.TrimSpace(l)
+		switch {
+		case strings.HasPrefix(t, "Read at") || strings.HasPrefix(t, "Write at") || strings.HasPrefix(t, "Previous read") || strings.HasPrefix(t, "Previous write") || strings.HasPrefix(t, "Goroutine "):
+			if cur != "" {
+				parts = append(parts, cur)
+			}
+			cur, n = strings.SplitN(t, " at 0x", 2)[0]+":", 0
+			if strings.HasPrefix(t, "Goroutine ") {
+				cur = "created:"
+			}
+		case strings.Contains(t, "block-headers-service/") && strings.HasSuffix(t, ")") && n < 5:
+			f := t[strings.LastIndex(t, "block-headers-service/")+len("block-headers-service/"):]
+			cur += " " + f
+			n++
+		}
+	}
+	if cur != "" {
+		parts = append(parts, cur)
+	}
+	if len(parts) > 4 {
+		parts = parts[:4]
+	}
+	out := strings.Join(parts, " | ")
+	if len(out) > 1500 {
+		out = out[:1500]
+	}
+	return out
 }
 
 func knownRace(block string) bool {
